@@ -79,8 +79,11 @@ def run(ctx):
             nm = "X%d" % extra
             body[nm] = e
             return [{"k": "equ", "nm": nm, "e": e}, {"k": "data", "mn": "DW", "items": [{"t": "e", "e": {"o": "id", "nm": nm}}]}]
-        st = [{"k": "org", "v": 0x7c00}]
+        st = [{"k": "org", "v": 0x7c00}, {"k": "data", "mn": "DB", "items": [{"t": "e", "e": {"o": "n", "v": 1}}, {"t": "e", "e": {"o": "n", "v": 2}}, {"t": "e", "e": {"o": "n", "v": 3}}]}]
         order = list(defs)
+        # a body that mentions `$`: its value is the address of the EQU statement, wherever the name is used later
+        order.insert(rng.randrange(len(order) + 1), ("QD", {"o": "+", "a": {"o": "id", "nm": "Q0"}, "b": {"o": "$"}}))
+        usesd = True
         if pi % 4 == 3:
             order.reverse()      # derived names written BEFORE the names they depend on (all still before the first use)
         st += [{"k": "equ", "nm": n, "e": e} for n, e in order]
@@ -89,6 +92,8 @@ def run(ctx):
             st += stmt_for(cell, use_expr(cell), ci)
         for n, _e in defs:          # every name once more, plainly, after all the arithmetic uses
             st.append({"k": "data", "mn": "DW", "items": [{"t": "e", "e": {"o": "id", "nm": n}}]})
+        dtail = [{"k": "data", "mn": "DW", "items": [{"t": "e", "e": {"o": "id", "nm": "QD"}}]},
+                 {"k": "ins", "mn": "MOV", "ops": [{"t": "r", "w": 16, "n": 2}, {"t": "l", "nm": "QD", "add": 0}]}]
         st.append({"k": "label", "nm": "fin"})
 
         def inl_stmt(s_):
@@ -109,11 +114,13 @@ def run(ctx):
                         o["dx"] = inline(o["dx"])
             return s2
         twin = [x for x in (inl_stmt(s_) for s_ in st) if x is not None]
+        st = st[:-1] + dtail + st[-1:]       # (the `$`-bodied name has no textual twin: it is judged by the reference semantics)
         a = R.add(st)
         b = R.add(twin)
-        R.rel("eq", ["C11"], a=b, b=a)
+        R.rel("eqpre", ["C11"], a=b, b=a)
         nb += 1
     R.run()
+    ctx.widen_tags = ["C05", "C06", "C01"]
     return relcheck.finish(ctx, "C11", R, None,
                            "seeded random programs x EQU abstractions enumerated by TLC (Gen_Variants.tla 'equ': every subset of <= 4 of the first 6 literal sites - immediates, data items, RESB counts, displacements - x chain depth 1..4 x body style direct/parenthesised/with its own arithmetic); "
                            "relation: output identical to the fully inlined program", ASSUME, extra={"base_programs": nb})
